@@ -165,6 +165,14 @@ def analyse(ctx, replace=None, only=None):
                             n_refused[0] += 1
                             if need is None:
                                 R.fail("AVAILABLE", "%s:refusal" % name, loc, "the refused size is not tracked")
+                            elif not (entails(st, H - T) or entails(st, T - H)):
+                                # refused before the three cases were told apart: the refusal has to be right in each of them
+                                for op_, inst_, conds_ in (("==", "empty-ring-refuses-only-larger-than-capacity", lambda s_: entails(s_, E - A + 1 - need)),
+                                                           ("<", "tail-ahead-refuses-only-when-no-room", lambda s_: entails(s_, T - H - need)),
+                                                           (">", "head-ahead-refuses-only-when-no-room", lambda s_: entails(s_, E - H + 1 - need) and entails(s_, T - A - need))):
+                                    for s_ in num.assume_cmp(op_, H, T, st.copy()):
+                                        R.check(conds_(s_), "AVAILABLE", "%s:%s" % (name, inst_), loc, "an early refusal is justified in the `head %s tail` case" % op_,
+                                                "a request (size %r) is refused before the ring's state was looked at, also when head %s tail and it would fit (ring %r): with nothing outstanding not every request up to the capacity succeeds" % (need, op_, E - A))
                             elif entails(st, H - T) and entails(st, T - H):
                                 R.check(entails(st, E - A + 1 - need), "AVAILABLE", "%s:empty-ring-refuses-only-larger-than-capacity" % name, loc, "with nothing outstanding a request is refused only when it exceeds the whole ring",
                                         "an idle ring refuses a request that fits (size %r, ring %r): not every request up to the capacity succeeds" % (need, E - A))
@@ -260,7 +268,15 @@ def analyse(ctx, replace=None, only=None):
             "the buffer is zeroed before its end is published (tail would be set to NULL+0)")
 
 
+    # every release moves the tail: a return that skips the store leaves the released bytes unavailable for good
+    from sa.cfg import Typestate as _TS
+    ts_ = _TS(f, 0, lambda e, s: 1 if any(e is s_ for s_ in st_) else s)
+    R.check(bool(st_) and ts_.exit_states == {1}, "AVAILABLE", "release:every-path-publishes", "%s()" % f.name, "every path through release stores the new tail",
+            "aws_ring_buffer_release can return without storing the tail (exit states %s): a buffer released on that path stays accounted as outstanding, the capacity never comes back" % sorted(ts_.exit_states))
+
+
 MUTANTS = [dict(_m, scope={"atomics": True}) for _m in atomics_map.MUTANTS] + [
+    {"name": "release-drops-a-whole-ring-buffer", "file": FILE, "expect": "AVAILABLE", "old": "    AWS_ATOMIC_STORE_TAIL_PTR(ring_buffer, buf->buffer + buf->capacity);\n    AWS_ZERO_STRUCT(*buf);", "new": "    if (buf->capacity >= (size_t)(ring_buffer->allocation_end - ring_buffer->allocation)) {\n        return;\n    }\n    AWS_ATOMIC_STORE_TAIL_PTR(ring_buffer, buf->buffer + buf->capacity);\n    AWS_ZERO_STRUCT(*buf);"},
     {"name": "ring-end-rounded-up-past-the-block", "file": FILE, "expect": "FREE-REGION", "old": "    ring_buf->allocation_end = ring_buf->allocation + size;", "new": "    ring_buf->allocation_end = ring_buf->allocation + ((size + sizeof(void *) - 1) & ~(sizeof(void *) - 1));"},
     {"name": "idle-ring-refuses-full-capacity", "file": FILE, "expect": "AVAILABLE", "old": "        if (requested_size > ring_space) {", "new": "        if (requested_size >= ring_space) {"},
     {"name": "tail-ahead-no-slack", "file": FILE, "expect": "FREE-REGION", "old": "        size_t space = tail_cpy - head_cpy - 1;\n", "new": "        size_t space = tail_cpy - head_cpy;\n"},
